@@ -1,19 +1,33 @@
 // Contains queries for external contracts,
 use cosmwasm_std::{to_binary, Deps, QueryRequest, StdResult, Uint128, WasmQuery};
+use serde::Deserialize;
 
 use margined_perp::margined_pricefeed::QueryMsg;
 
 use crate::state::{read_config, Config};
+
+// the latest round as the protocol's own price feed reports it (only the price is of interest)
+#[derive(Deserialize)]
+struct LatestRound {
+    price: Uint128,
+}
 
 // returns the underlying price provided by an oracle
 pub fn query_underlying_price(deps: &Deps) -> StdResult<Uint128> {
     let config: Config = read_config(deps.storage)?;
     let key: String = config.base_asset;
 
-    deps.querier.query(&QueryRequest::Wasm(WasmQuery::Smart {
+    let request = QueryRequest::Wasm(WasmQuery::Smart {
         contract_addr: config.pricefeed.to_string(),
         msg: to_binary(&QueryMsg::GetPrice { key })?,
-    }))
+    });
+
+    // a feed answers either with the bare price or, like margined_pricefeed, with the whole
+    // latest round
+    match deps.querier.query::<Uint128>(&request) {
+        Ok(price) => Ok(price),
+        Err(_) => Ok(deps.querier.query::<LatestRound>(&request)?.price),
+    }
 }
 
 // returns the underlying twap price provided by an oracle
